@@ -8,7 +8,7 @@ from ..core import Sub, build_machine, run_history
 PROP = {
     "id": "C20",
     "level": "exploration",
-    "technique": "Hypothesis RuleBasedStateMachine per block class with a pool of instances: construct (without items / with a fresh explicit list), decode (same bytes several times), add / remove / in-place edit on one instance, encode; invariant: every other instance's item identities and encoding are unchanged, a block constructed without items is empty",
+    "technique": "Hypothesis RuleBasedStateMachine per block class with a pool of instances: construct (without items / with a fresh explicit list), decode (same bytes several times), add / remove / in-place edit on one instance, encode; invariant: every other instance's item identities and encoding are unchanged, a block constructed without items is empty; the in-place editor also rebinds array attributes of nested library objects; one non-numpy sequence handed to two constructors",
     "level_text": ("Exploration of interleavings over 2..5 live instances of one block class. After every step a snapshot (item object "
                    "identities + encoding) of every instance that was not the target of the step is compared with the snapshot taken "
                    "before; new instances made without items must be empty whatever happened to earlier ones. A second sub-check reads the same block "
